@@ -57,10 +57,23 @@ def fixed_param_templates():
                                 "init": [asg("x", [(F(1), ONE)]), asg("y", [])],
                                 "body": [asg("x", [(P, V("x")), (F(1), ONE)]), asg("y", [(F(1), V("y")), (P, V("x", 2))])]},
                 ["x", "y", "x*y"]))
+    # closed forms with a transient (delay line): the special cases for small n have derivatives too
+    out.append(("delay_line", {"vars": ["s", "x", "y", "z"], "s0": {}, "guard": ("true",),
+                               "init": [asg("x", [(F(1), ONE)]), asg("y", [(F(2), ONE)]), asg("z", [(P, ONE)]), asg("s", [])],
+                               "body": [asg("z", [(F(1), V("y"))]), asg("y", [(F(1), V("x"))]),
+                                        ("assign", "x", [(P, [(F(1), ONE)]), (("par", "p", F(-1), F(1)), [])], ("true",), "x"),
+                                        asg("s", [(F(1), V("s")), (F(1), V("z"))])]},
+                ["x", "y", "z", "s", "s**2", "y*z"]))
+    # a loop constant whose value depends on the parameter, used as a factor of the goal and in the body
+    out.append(("constant_of_parameter", {"vars": ["c", "x"], "s0": {}, "guard": ("true",),
+                                          "init": [asg("c", [(("par", "p", F(2), F(0)), ONE)]), asg("x", [])],
+                                          "body": [("assign", "x", [(P, [(F(1), V("x")), (F(1), ONE)]), (("par", "p", F(-1), F(1)), [(F(1), V("x"))])], ("true",), "x")]},
+                ["x", "c*x", "c*x**2", "c"]))
     items = []
     for name, T, goals in out:
         items.append({"id": "ptmpl-" + name, "text": gen.render(gen.to_text_template(T)), "T": T, "params": ["p"],
-                      "points": [{"p": "1/3"}, {"p": "3/4"}], "goals": goals, "dparam": "p", "origin": "fixed parametric template " + name})
+                      "points": [{"p": "1/3"}, {"p": "3/4"}], "goals": goals, "dparam": "p", "origin": "fixed parametric template " + name,
+                      "want_extra": ["sens_cli"]})
     return items
 
 
@@ -70,12 +83,14 @@ def main(tier, seed):
     for it in C.generated(seed, 30 if quick else 250, profile={"params": True}, ngoals=4, prefix="sens"):
         if "p" in it["params"]:
             it["dparam"] = "p"
+            if len(items) < (9 if quick else 40):
+                it["want_extra"] = ["sens_cli"]      # the printed output of the action itself, for some of them
             items.append(it)
     for it in C.generated(seed + 7, 12 if quick else 80, profile={"params": False, "sym_init": True}, ngoals=4, prefix="sensi"):
         inits = [p for p in it["params"] if p.endswith("0")]
         if inits:
             it["dparam"] = inits[0]
             items.append(it)
-    return analysis_check("C10", tier, seed, items=items, want=["sens"], builders=[dual_source, C.b_sens],
+    return analysis_check("C10", tier, seed, items=items, want=["sens"], builders=[dual_source, C.b_sens, C.b_sens_cli],
                           N=6 if quick else 8, timeout=150,
                           assumptions=["parameters occur in probabilities and symbolic initial values of generated programs (coefficients: corpus only)"])
